@@ -525,6 +525,10 @@ def check_replay(ctx, F):
                             toks.append("apply" if ev[4][1:] == ["P:transitions", "P:count"] else "apply?%s" % ev[4][1:])
                         elif n == "emplace" and (ev[3] or "").endswith(".previousTransitions"):
                             toks.append("rec" if re.match(r"^P:transitions\[.*\]$", ev[4][0] if ev[4] else "") else "rec?%s" % ev[4])
+                        elif n == "operator=" and (ev[3] or "").startswith("L:") and ev[4] and (ev[4][0] or "").endswith(".previousTransitions"):
+                            toks.append("cur")           # the control's currentTransitions := the replayed list
+                        elif n == "emplace" and (ev[3] or "").startswith("L:") and re.match(r"^P:transitions\[.*\]$", ev[4][0] if ev[4] else ""):
+                            toks.append("cur")
                         elif n == commit and (ev[3] or "").endswith("._apex"):
                             toks.append("commit")
                         elif n == "clearRequests":
@@ -536,19 +540,21 @@ def check_replay(ctx, F):
                     # the initial activation happens whatever the replayed requests amount to: they may net out to the default configuration
                     # (two substitution rounds that end where they began), and the replica must still be entered
                     if "apply" in s:
-                        if re.match(r"^apply (ok |fail )?(rec )?commit clearreq$", s):
+                        if re.match(r"^apply (ok |fail )?(rec )?(cur )+commit clearreq$", s):
                             ok_path = True
                         elif "commit" not in toks:
                             bad.append("a path applies the recorded requests but does not enter the machine (`%s`): a record that nets out to the default "
                                        "configuration leaves the replica inactive" % s)
                         else:
-                            bad.append("replay path `%s`, expected `apply rec* commit clearreq`" % s)
+                            bad.append("replay path `%s`, expected `apply rec* cur commit clearreq` (cur: the control the states are entered with carries the "
+                                       "replayed transitions, so enter() sees the transition and payload it sees on the authority)" % s)
                     continue
                 if "ok" in toks:
-                    if re.match(r"^apply ok (rec )?commit clearreq$", s):
+                    if re.match(r"^apply ok (rec )?(cur )+commit clearreq$", s):
                         ok_path = True
                     else:
-                        bad.append("replay path `%s`, expected `apply ok rec* commit clearreq`" % s)
+                        bad.append("replay path `%s`, expected `apply ok rec* cur commit clearreq` (cur: the control the states are entered / exited with carries "
+                                   "the replayed transitions, so callbacks see the transition and payload they see on the authority)" % s)
                 elif "commit" in toks:
                     bad.append("commits without a successful applyRequests: `%s`" % s)
             # the recording loop copies transitions[i] for i in [0, count)
